@@ -12,7 +12,6 @@ from collections import Counter
 VERIF = os.path.dirname(os.path.dirname(os.path.abspath(__file__)))
 REPO = os.environ.get("J2M_VERIF_REPO", "/repo")
 PY = os.environ.get("J2M_VERIF_PY", "/venv/bin/python")
-DEPS = os.path.join(VERIF, ".deps")
 WORK = os.path.join(VERIF, ".work")
 NPROC = int(os.environ.get("J2M_VERIF_JOBS", "16"))
 
@@ -40,7 +39,7 @@ def digest(obj) -> str:
 
 def child_env(extra=None, hashseed="0", with_site=False):
     env = dict(os.environ)
-    paths = [REPO, VERIF, DEPS, os.path.join(VERIF, "stubs")]
+    paths = [REPO, VERIF, os.path.join(VERIF, "stubs")]
     if with_site:
         paths.insert(0, os.path.join(VERIF, "sitecustom"))
     env["PYTHONPATH"] = os.pathsep.join(paths)
